@@ -47,6 +47,8 @@ def render_file(f):
     L = []
     if h.get("comment"):
         L.append(h["comment"])
+    for line in h.get("top", []):
+        L.append(line)
     if h.get("imports", "star") == "explicit":
         L.append("from inline_snapshot import snapshot")
         L.append("from simlib import *")
